@@ -121,7 +121,7 @@ def gen_public(tier):
 
     for case in c13.gen_public(tier):
         cfg = Cfg.from_desc(case["cfg"])
-        if cfg.auth and ("order" in case or case.get("lose_first") or case.get("ctx_other") or (case.get("clock") == 0 and case["script"] == c13.SCRIPTS[1])):
+        if cfg.auth and ("order" in case or case.get("lose_first") or case.get("ctx_other") or case.get("empty_eid_arg") or "pre_iter" in case["script"] or (case.get("clock") == 0 and case["script"] == c13.SCRIPTS[1])):
             yield case
 
 
